@@ -15,7 +15,7 @@ ENGINES = [
     dict(name="depsim", path="sim/depsim.py", serves_properties=["C14"], kind_free_text="deterministic simulation of kernel-build histories over generated class dependency graphs with the class-set iteration order owned by the seeded scheduler"),
     dict(name="capisim", path="sim/capisim.py", serves_properties=["C02", "C07", "C17"], kind_free_text="object-graph simulation with compiled C accessor clients as additional readers/writers of the shared storage"),
     dict(name="hybridsim", path="sim/hybridsim.py", serves_properties=["C18", "C19"], kind_free_text="deterministic simulation of hybrid-class histories (set/copy/move/dict/pickle) against a value+ownership model"),
-    dict(name="devsim", path="sim/devsim.py", serves_properties=["C15", "C16"], kind_free_text="simulated OpenCL/CUDA devices: fake runtimes, host-compiled sanitized device process, seeded work-item schedules"),
+    dict(name="devsim", path="sim/devsim.py", serves_properties=["C16"], kind_free_text="simulated OpenCL/CUDA devices: fake runtimes, host-compiled sanitized device process, seeded work-item schedules"),
 ]
 
 # property -> (engine, technique, level text, level note, design ref)
@@ -38,6 +38,7 @@ CHECKS = {
     "C14": ("depsim", "deterministic simulation: histories of sort_classes / add_kernels builds over generated dependency graphs with the class-set iteration order (address-hash order in the library) owned by the seeded scheduler", "Generated graphs over structs (with and without fields), arrays, references, unions, declared _depends_on edges (including cycle-closing ones) and HybridClass declarations; per run 1-6 builds with seeded root subsets/orders (roots named twice included) and a seeded permutation injected at the classes_from_kernels seam; every build is compiled by the real cffi/gcc path; the listed/emitted classes are compared with the harness's own closure: each reachable API exactly once, after its dependencies, nothing else, cycles raise. Weak fit: simulation contributes control of an otherwise address-dependent order (replayability); the graph dimension is seeded generation.", "Trusted: the dependency relation as computed by sim/depsim.py from the schema; guard-block scan of the emitted source.", "DESIGN.md §4 C14"),
     "C18": ("hybridsim", "deterministic simulation: histories of {construct, set field, nested assignment, reference bind, copy, move, raw writes through _xobject, growth/relocation, pickle restart} on generated hybrid classes; attribute == buffer data == model and nested dressed parts in sync after every step", "Generated HybridClass definitions over scalars, strings, scalar arrays of any shape/order, nested hybrid classes (chains), references to hybrid classes, renamed fields and defaults; after every step every live dressed object is read recursively through its Python attributes and compared with its _xobject and with the reference model, and every nested dressed part must sit where the parent's buffer data places it; copy-assignment independence, reference sharing, cross-buffer refusal (with unchanged state), copy equality/independence, move relocation and refusals are post-conditions of the corresponding steps.", "Trusted: sim/model.py; pure-Python attributes are not modelled; reference-bearing nested assignment and moves of reference targets are not generated.", "DESIGN.md §3.5, §4 C18"),
     "C19": ("hybridsim", "deterministic simulation: from_dict(to_dict(h)) and T(x._to_json()) issued at arbitrary points of hybrid / object histories, rebuilt object compared with the model, default elision checked against declared defaults", "to_dict/from_dict round trips on generated hybrid classes (renames, defaults, default factories, nested hybrids, references, N-D and empty arrays, strings) at seeded points of histories with values deliberately equal to and different from defaults; keys equal to the declared (or implicit zero) default must be absent and the rebuilt object must equal the original field by field (a field omitted as equal to its default may come back as +0.0 for -0.0). JSON rebuild of reference-free structs and 1-D arrays through the ObjSim json profile. Weak fit: the rebuild is a function of the object; histories only sample states constructors alone do not reach.", "Trusted: sim/model.py; value (not bit-pattern) equality for fields omitted as default.", "DESIGN.md §3.5, §4 C19"),
+    "C16": ("devsim", "deterministic simulation: generated annotated kernel programs built by the real CPU/OpenCL/CUDA context code and executed on a stub device, one host call per work-item in a seeded schedule (identity, reverse, shuffles, block-wise shuffles), CUDA tail threads included; hit counters, guard cells and a per-target model checked after every launch", "Programs over the whole annotation vocabulary (1-3 kernels, 1-3 vectorize blocks each with chaining at the same index, gpufun helpers, gpuglmem/restrict qualifiers, only_for_context lines that change the arithmetic, include_file with present and (for contexts not built) missing files, unannotated filler); n in {0,1,2,3,block-1,block,block+1,2*block+3,...}, CUDA block size in {1,2,3,4,32,256}; serial and OpenMP CPU contexts through cffi, OpenCL and CUDA through the real build_kernels/__call__ against fake pyopencl/cupy modules. After every launch: each block ran exactly once for every index < n and never for another, guard cells untouched, result arrays equal to the model's per-target expectation; per build: included text present exactly for the named contexts, restricted lines active exactly there, unannotated lines verbatim and in order.", "Trusted: fidelity of the stub platform (sim/device.py): a work-item is one call of the kernel function with get_global_id / blockIdx*blockDim+threadIdx set by the launcher; out-of-bounds writes are observed through guard cells, not a sanitizer.", "DESIGN.md §3.4, §4 C16"),
 }
 
 NOT_YET = "check not built yet in this revision (engine under construction, see DESIGN.md build order); will be claimed or given its final not-applicable reason when the engine lands"
